@@ -77,6 +77,20 @@ func famRedef(r *rng) []string {
 		res = append(res, mk, fmt.Sprintf("c1 = mk(%d)", n), "println("+get("c1")+")", "println("+get("c1")+")",
 			fmt.Sprintf("c2 = mk(%d)", n), "println("+get("c2")+")", "println("+get("c1")+")")
 	}
+	if r.intn(3) == 0 { // an error caught inside a function (a value, so cacheable by type) that is due to the bindings of the moment
+		cf := pickS(r,
+			"cf = func(){ c = catch(yq); if c.err { -1 } else { c.value } }", // (the wording of an error is no observation)
+			"cf = func(){ catch(yq + 1).err }",
+			"cf = func(n){ catch(yq(n)).err }",
+			"cf = func(){ c = catch(yq[0]); [c.err, 1] }",
+			"func cf(){ if catch(yq).err { \"undefined\" } else { \"defined\" } }")
+		call := "cf()"
+		if strings.Contains(cf, "func(n)") {
+			call = "cf(3)"
+		}
+		res = append(res, cf, "println("+call+")", "println("+call+")",
+			pickS(r, "yq = 1", "yq = func(n){ n * 2 }", "yq = [7, 8]"), "println("+call+")", "del(yq)", "println("+call+")")
+	}
 	if r.intn(4) == 0 { // a function drawing into an image (extension state) twice with the same arguments
 		res = append(res, `image.new("a", 8, 8)`,
 			`tri = func(x, c){ image.move_to("a", x, 1.); image.line_to("a", x + 4., 1.); image.line_to("a", x, 5.); image.close_path("a"); image.draw("a", c) }`,
